@@ -137,8 +137,24 @@ void DocumentBuilder::decl_progress(bool hasGuard)
 /********************************************************************
  * Process declarations
  */
+/**
+ * A syntax error can end a block of text in the middle of a function body or an edge, in which case
+ * the scopes (and the function) opened so far are never closed (see StatementBuilder::decl_func_begin).
+ * Templates begin and end in the global scope, so the leftovers are dropped there: otherwise the
+ * declarations that follow would end up inside the abandoned function and names would be resolved
+ * through the scopes of an unrelated template.
+ */
+void DocumentBuilder::reset_to_global_scope()
+{
+    while (frames.size() > 1)
+        popFrame();
+    currentFun = nullptr;
+    blocks.clear();
+}
+
 void DocumentBuilder::proc_begin(const char* name, const bool isTA, const string& type, const string& mode)
 {
+    reset_to_global_scope();
     currentTemplate = document.find_dynamic_template(name);
     if (currentTemplate) {
         /* check if parameters match */
@@ -172,7 +188,7 @@ void DocumentBuilder::proc_begin(const char* name, const bool isTA, const string
 void DocumentBuilder::proc_end()  // 1 ProcBody
 {
     currentTemplate = nullptr;
-    popFrame();
+    reset_to_global_scope();
 }
 
 /**
